@@ -3,7 +3,7 @@ PQ = 'mouette.utils.priority_queue.PriorityQueue'
 PROP = {
     'id': 'C20',
     'specs': ['specs.unionfind', 'specs.priority_queue'],
-    'functions': [UF + '.' + f for f in ('__init__', '__len__', '__contains__', '__getitem__', 'add', 'find', 'connected', 'union')]
+    'functions': [UF + '.' + f for f in ('__init__', '__len__', '__contains__', '__getitem__', 'add', 'find', 'connected', 'union', 'roots', 'component')]
                  + [PQ + '.' + f for f in ('__init__', 'empty', 'push', 'get', 'pop', 'front')],
     'level': 'proof',
     'trusted_base': ['A1 CPython executes the parsed AST as pyvc models it (subset of DESIGN 2.3)',
@@ -13,7 +13,13 @@ PROP = {
                      'B1/B2 definition of the multiset of a list (axioms bag-nonneg, bag-member, heap-empty)',
                      'hash/== of elements are consistent (elements modelled as an uninterpreted sort with equality)',
                      'priorities are mathematical reals (A2): NaN excluded, +-inf as ordinary order elements'],
-    'bounded': [],
-    'not_decided': [],
+    'bounded': [
+        {'name': 'uf-views', 'function': 'mouette.utils.unionfind.UnionFind.components / component_mapping', 'engine': 'Br (native run-time contract)',
+         'bound': 'all add/union/find scripts of length <= 3 over 3 int elements and over 3 str elements (both with roots() queried first and last), '
+                  '+ 3000 seeded random union scripts of length 3..7 over 6 elements; every observable answer compared with the abstract partition'},
+        {'name': 'pq', 'function': 'mouette.utils.priority_queue.PriorityQueue (drain order, emptiness)', 'engine': 'Br (native run-time contract)',
+         'bound': 'all push/get/pop/front scripts of length <= 4 over 2 elements x priorities {1.0, -2.5, +inf, -inf}', 'tier': 'thorough'},
+    ],
+    'not_decided': ['components() and component_mapping(): dict/list-of-lists bookkeeping not yet under contract -> bounded stand-in uf-views (NOT counted as proved)'],
     'math': [],
 }
